@@ -624,6 +624,14 @@ def check_selection(prog, rep, fs, entry_of, pubname='zone_ids'):
         if not names:
             continue
         fv = _view(prog, f)
+        # ids are matched exactly: a tolerance test on a requested id selects its neighbours too (large codes one apart)
+        idvars = set(names) | {n_.target.id for n_ in fv.own_nodes() if isinstance(n_, (ast.For, ast.comprehension)) and
+                               isinstance(n_.target, ast.Name) and isinstance(n_.iter, ast.Name) and n_.iter.id in names}
+        for c_ in calls(fv.node):
+            if short(c_) in ('isclose', 'allclose') and any(isinstance(x, ast.Name) and x.id in idvars for a_ in c_.args for x in ast.walk(a_)):
+                n += 1
+                rep.add('Z-select', fv, entry_of(f), norm(c_)[:120], c_.lineno, False,
+                        'an id is selected iff it EQUALS a requested id: `%s` also selects every id within the tolerance' % short(c_))
         for node in fv.own_nodes():
             tests = []
             if isinstance(node, (ast.If, ast.While)):
